@@ -368,14 +368,21 @@ def k_render_field(R, maxq, props):
         flatten, boxed, skip = z3.Bool(f'flatten{n}'), z3.Bool(f'boxed{n}'), z3.Bool(f'skip{n}')
         strat = z3.BitVec(f'strat{n}', 8)
         has_strat = z3.BitVec(f'hasstrat{n}', 8)
+        # the trait lists are options "affecting only traits": unconstrained here, no attribute may depend on them (C09)
+        # (a symbolic choice among spellings rather than a free string: the option is split at commas and trimmed)
+        rsel, vsel = z3.BitVec(f'rdsel{n}', 8), z3.BitVec(f'vdsel{n}', 8)
+        spell = lambda sel: z3.If(sel == 0, z3.StringVal('Serialize'), z3.If(sel == 1, z3.StringVal('serde::Serialize'), z3.If(sel == 2, z3.StringVal('Debug, PartialEq'), z3.StringVal('Clone'))))
+        rderives, vderives = spell(rsel), spell(vsel)
+        has_rd, has_vd = z3.BitVec(f'hasrd{n}', 8), z3.BitVec(f'hasvd{n}', 8)
 
         def setup(st, B, qs=qs, n=n):
             for q in qs:
                 st.pc.append(z3.ULT(q, 2))
             for a, b in zip(qs, qs[1:]):
                 st.pc.append(z3.Not(z3.And(a == req, b == req)))
-            for x in (has_g, dep1, dep2, has_strat):
+            for x in (has_g, dep1, dep2, has_strat, has_rd, has_vd):
                 st.pc.append(z3.ULT(x, 2))
+            st.pc += [z3.ULT(rsel, 4), z3.ULT(vsel, 4)]
             st.pc.append(z3.ULT(strat, len(strategies)))
             # representation invariant of the ExpandedField values calculate_selection builds (3 sites):
             # spread fields are flattened, keyless, `[Required]`, never deprecated and named after a fragment;
@@ -397,6 +404,7 @@ def k_render_field(R, maxq, props):
                              deprecation=SymEnum(dep1, {0: (), 1: (SymEnum(dep2, {0: (), 1: (StrV(reason),)}),)}),
                              boxed=boxed)
             opts = options_value(B, skip_serializing_none=skip,
+                                 response_derives=SymEnum(has_rd, {0: (), 1: (StrV(rderives),)}), variables_derives=SymEnum(has_vd, {0: (), 1: (StrV(vderives),)}),
                                  deprecation_strategy=SymEnum(has_strat, {0: (), 1: (SymEnum(strat, {i: () for i in range(len(strategies))}),)}))
             R.vm.push_call(st, f, [B.cell(field), B.cell(opts)], None, None)
         outs, _ = R.explore('ExpandedField::render', setup)
@@ -459,6 +467,11 @@ def k_render_field(R, maxq, props):
                         dup = dup or k_ in merged
                         merged[k_] = v_
                 claims['attrs:no-duplicate-keys'] = z3.BoolVal(not dup)
+                if 'C09' in props:
+                    # re-serialization: the skip attribute follows the option and the outermost qualifier only - in particular it
+                    # is the same whatever the trait lists say
+                    want_skip = z3.And(skip, qs[0] != req) if qs else z3.BoolVal(False)
+                    claims['C09:skip-attribute-independent-of-trait-options'] = want_skip if 'skip_serializing_if' in merged else z3.Not(want_skip)
                 known = {'rename', 'deserialize_with', 'flatten', 'skip_serializing_if', 'default'}
                 claims['attrs:known-serde-keys'] = z3.BoolVal(set(merged) <= known)
                 renames = [merged['rename']] if 'rename' in merged else []
@@ -518,7 +531,7 @@ def k_render_field(R, maxq, props):
                 if 'default' in merged:
                     claims['C03:default-only-on-nullable'] = z3.BoolVal(code is not None and (code.startswith('O') or code.startswith('BO')))
             env = dict(qs=qs, gname=gname, rname=rname, ftype=ftype, reason=reason, has_g=has_g, dep1=dep1, dep2=dep2, flatten=flatten, boxed=boxed,
-                       skip=skip, strat=strat, has_strat=has_strat, req=req, strategies=strategies)
+                       skip=skip, strat=strat, has_strat=has_strat, req=req, strategies=strategies, rderives=rderives, has_rd=has_rd)
             by_prop = {}
             for name, claim in claims.items():
                 pfx = name.split(':')[0]
@@ -548,6 +561,8 @@ def field_model(m, env):
              reason=s(env['reason']) if ev(env['dep2']).as_long() == 1 else None,
              flatten=z3.is_true(ev(env['flatten'])), boxed=z3.is_true(ev(env['boxed'])), skip_serializing_none=z3.is_true(ev(env['skip'])),
              strategy=(env['strategies'][ev(env['strat']).as_long()] if ev(env['has_strat']).as_long() == 1 else None))
+    if 'rderives' in env:
+        d['response_derives'] = s(env['rderives']) if ev(env['has_rd']).as_long() == 1 else None
     return d
 
 
